@@ -86,6 +86,7 @@ pub fn cfg_to_json(c: &SimConfig) -> Value {
         "seed_claim": c.seed_claim,
         "strategy": strategy_to_json(&c.strategy),
         "stall_prob": c.stall_prob,
+        "stall_prob_store": c.stall_prob_store,
         "stall_max_len": c.stall_max_len,
         "slow_max": c.slow_max,
         "stale": c.stale.as_ref().map(|s| json!({"prob": s.prob, "max_consecutive": s.max_consecutive})),
@@ -117,6 +118,7 @@ pub fn cfg_from_json(v: &Value) -> SimConfig {
         seed_claim: g("seed_claim"),
         strategy: strategy_from_json(&v["strategy"]),
         stall_prob: v["stall_prob"].as_f64().unwrap_or(0.0),
+        stall_prob_store: v["stall_prob_store"].as_f64().unwrap_or(0.0),
         stall_max_len: g("stall_max_len"),
         slow_max: g("slow_max").max(1),
         stale: if v["stale"].is_null() {
